@@ -285,6 +285,9 @@ func TestVerifServerKeyspaces(t *testing.T) {
 	rng := vNewRand("srvkeys")
 	ctx := context.Background()
 	instances := []string{"", "a", "a/b", "ac", "x/cas/y", "blobs/z", "ünï/コード", "a/b/c/d/e"}
+	// instance names that differ only in leading/trailing/doubled slashes, or in case or white space, are
+	// different names; they are exercised over gRPC only (an HTTP path cannot spell all of them)
+	edge := []string{"a/", "/a", "a//", "/", "//", "A", " a", "a ", "a/b/", "a//b"}
 	for _, mangle := range []bool{true, false} {
 		for _, validateAC := range []bool{true, false} {
 			f := vNewFix(t, vFixOpts{mangle: mangle, validateAC: validateAC, depsCheck: false})
@@ -338,6 +341,52 @@ func TestVerifServerKeyspaces(t *testing.T) {
 					}
 				}
 			}
+			if validateAC {
+				all := append(append([]string{}, instances...), edge...)
+				for _, inst := range edge {
+					rec.Case()
+					ar := &pb.ActionResult{ExitCode: int32(rng.Intn(100)), OutputSymlinks: []*pb.OutputSymlink{{Path: fmt.Sprintf("l%d", rng.Intn(1000)), Target: "t"}}}
+					key := vSha(rng.Bytes(16))
+					if ok, det := f.vPutAC("grpc", key, inst, ar); !ok {
+						rec.Violation("C15", "keys.put-failed", fmt.Sprintf("upload via grpc under instance %q failed: %s", inst, det), nil)
+						continue
+					}
+					for _, q := range all {
+						_, err := f.ac.GetActionResult(ctx, &pb.GetActionResultRequest{InstanceName: q, ActionDigest: &pb.Digest{Hash: key, SizeBytes: 1}})
+						hit := err == nil
+						want := !mangle || q == inst
+						rec.Count(fmt.Sprintf("edge.mangle=%v.hit=%v", mangle, hit))
+						if hit != want {
+							rec.Violation("C15", fmt.Sprintf("keys.instance.mangle=%v", mangle), fmt.Sprintf("mangling=%v: stored via grpc under instance %q, lookup via grpc with instance %q: hit=%v want %v", mangle, inst, q, hit, want), nil)
+						}
+					}
+					rec.Distinct(fmt.Sprintf("%v:edge:%s", mangle, inst))
+				}
+			}
+			// the empty blob's hash as a key of the action caches: no entry there unless one was stored
+			{
+				rec.Case()
+				const emptyHash = "e3b0c44298fc1c149afbf4c8996fb92427ae41e4649b934ca495991b7852b855"
+				for _, m := range []string{"HEAD", "GET"} {
+					code, _, _ := f.vHTTPDo(m, "/ac/"+emptyHash, nil, nil)
+					rec.Count(fmt.Sprintf("emptykey.%s.%d", m, code))
+					if code == 200 {
+						rec.Violation("C15", "keys.empty-hash-in-ac", fmt.Sprintf("%s /ac/<sha256 of the empty string> answers 200 although nothing was stored under that action key (validation=%v)", m, validateAC), nil)
+					}
+				}
+				if _, err := f.ac.GetActionResult(ctx, &pb.GetActionResultRequest{ActionDigest: &pb.Digest{Hash: emptyHash, SizeBytes: 1}}); err == nil {
+					rec.Violation("C15", "keys.empty-hash-in-ac", "GetActionResult for the sha256 of the empty string hits although nothing was stored", nil)
+				}
+				// after storing an entry there, HEAD and GET agree on it
+				ar := &pb.ActionResult{ExitCode: 7, OutputSymlinks: []*pb.OutputSymlink{{Path: "l", Target: "t"}}}
+				if ok, _ := f.vPutAC("httpProto", emptyHash, "", ar); ok {
+					codeG, body, _ := f.vHTTPDo("GET", "/ac/"+emptyHash, nil, nil)
+					codeH, _, hdr := f.vHTTPDo("HEAD", "/ac/"+emptyHash, nil, nil)
+					if codeG != 200 || codeH != 200 || (hdr.Get("Content-Length") != "" && hdr.Get("Content-Length") != fmt.Sprint(len(body))) {
+						rec.Violation("C15", "keys.empty-hash-entry", fmt.Sprintf("entry stored under the empty blob's hash: GET %d (%d bytes), HEAD %d Content-Length %q", codeG, len(body), codeH, hdr.Get("Content-Length")), nil)
+					}
+				}
+			}
 			// a CAS blob whose hash is used as an AC key: independent
 			data := rng.Bytes(50)
 			d := f.vPutBlob(t, data)
@@ -356,5 +405,5 @@ func TestVerifServerKeyspaces(t *testing.T) {
 			f.Close()
 		}
 	}
-	rec.Set("rule", "mangling on/off x HTTP validation on/off x 8 instance names (empty, nested, containing ac/cas/blobs segments, unicode) x store via gRPC/HTTP x lookup via gRPC/HTTP with every instance name; plus cross key-space probes")
+	rec.Set("rule", "mangling on/off x HTTP validation on/off x 8 instance names (empty, nested, containing ac/cas/blobs segments, unicode) x store via gRPC/HTTP x lookup via gRPC/HTTP with every instance name; 10 names differing only in slashes, case or blanks over gRPC; the empty blob's hash as an action key; plus cross key-space probes")
 }
